@@ -5,7 +5,7 @@
 wt="$1"; shift
 cd "$wt" || exit 2
 git apply -R --check _out/patch.diff || { echo "patch does not match worktree"; exit 2; }
-git checkout -q -- . ; git clean -fdq -- prqlc; git apply _out/patch.diff || { echo "patch does not apply to HEAD"; exit 2; }
+git reset -q; git checkout -q -- . ; git clean -fdq -- prqlc; git apply _out/patch.diff || { echo "patch does not apply to HEAD"; exit 2; }
 echo "== nextest with the change"
 CARGO_BUILD_JOBS=8 cargo nextest run --workspace --no-fail-fast --test-threads 8 --offline 2>&1 | grep -E "Summary|FAIL|error(\[|:)" | head -10
 echo "== demo with the change (expect failure)"
